@@ -13,6 +13,8 @@
                                            new ROOT cpuset, Hw.Attr.CpuKindsAllowed)
    by <cs|NULL> <flags> | nr <flags> | info <id> <flags>                                        -> r=..
 
+   rawset <idx> <forced> <eff> | rawswap <i> <j> | rawrank      private writes into the array / direct rank   -> rc=.. obs
+
    A7: `env` may occur anywhere (the harness does the setenv, the C code calls getenv in every rank).  The driver tracks the
    strategy of the last call that ranked the array (`tagStep` / `ranks` of Hw.Attr.CpuKindsStrategies) and appends
    " SPEC-VIOLATION.." to an observation whose array is not `Ranked` w.r.t. that strategy or whose last-pair info summaries
@@ -133,6 +135,19 @@ def step (d : DState) (line : String) : DState × String :=
   | ["xml"] => let d' := d.after .xml (xmlReload d.strat d.st); fin d' ("rc=ok " ++ showObs d'.t)
   | ["xmlv2"] => let d' := d.after .xml (xmlReload d.strat d.st); fin d' ("rc=ok " ++ showObs d'.t)     -- same transfer through the v2 format
   | ["refresh"] => let d' := d.after .refresh (refresh d.strat d.st); fin d' ("rc=ok " ++ showObs d'.t)
+  | ["rawset", idx, f, e] => match parseNat idx, parseInt f, parseInt e with
+      | some idx, some f, some e =>
+        let (st', r) := rawSet d.st idx f e
+        let d' := { (d.setSt st') with dirty := d.dirty || decide (r = .ok) }
+        (d', "rc=" ++ errStr r ++ " " ++ showObs d'.t)
+      | _, _, _ => bad
+  | ["rawswap", i, j] => match parseNat i, parseNat j with
+      | some i, some j =>
+        let (st', r) := rawSwap d.st i j
+        let d' := { (d.setSt st') with dirty := d.dirty || decide (r = .ok) }
+        (d', "rc=" ++ errStr r ++ " " ++ showObs d'.t)
+      | _, _ => bad
+  | ["rawrank"] => let d' := d.after .refresh (rawRank d.strat d.st); fin d' ("rc=ok " ++ showObs d'.t)
   | ["by", cs, fl] => match parseCs cs, parseNat fl with
       | some cs, some fl => (d, "r=" ++ resStr (getByCpuset d.st cs fl))
       | _, _ => bad
